@@ -1,1 +1,2 @@
 pub mod c14;
+pub mod c19;
